@@ -134,6 +134,11 @@ func ruleG7r(r *Run) {
 	ast.Inspect(fd.Body, func(n ast.Node) bool {
 		switch x := n.(type) {
 		case *ast.AssignStmt:
+			if len(x.Rhs) == 1 {
+				if c, ok := ast.Unparen(x.Rhs[0]).(*ast.CallExpr); ok && methodName(c) == "Value" {
+					return true // the one assignment from the call's own tuple
+				}
+			}
 			for _, l := range x.Lhs {
 				if id, ok := l.(*ast.Ident); ok && info.Uses[id] == indexObj {
 					reassigned = true
@@ -146,7 +151,7 @@ func ruleG7r(r *Run) {
 		}
 		return true
 	})
-	r.Check(!reassigned, "call index is never modified in Provider.process", fd.Pos(), "single definition", "the call's index is modified before the reply is built")
+	r.Check(!reassigned, "call index is never modified in Provider.process", fd.Pos(), "only assigned from the call's own tuple", "the call's index is modified before the reply is built")
 	n := 0
 	ast.Inspect(fd.Body, func(m ast.Node) bool {
 		c, ok := m.(*ast.CallExpr)
